@@ -14,13 +14,15 @@ import (
 func init() {
 	register(&Prop{
 		ID:          "C17",
-		Explanation: "PARTIAL claim — decides four structural conditions of faithful proxying, not routing or byte fidelity as behaviour: (1) stores into the request line, host and body of an *http.Request (Method, URL, RequestURI, Host, Body, and fields of the URL reached from a request) occur, in production code, only in pkg/upstream (rewrite, director, unix round-tripper) or on values that are clones/new requests; (2) between the outer handler and the upstream no production code reachable from the pass path parses or consumes the body (ParseForm/FormValue/PostFormValue/ParseMultipartForm/MultipartReader/Body reads) outside the reviewed login endpoints; (3) the registration-order comparator puts a rewrite rule before a plain one only when the other has no rewrite target and otherwise orders by longer path, on every true-returning path; (4) the rewrite query merge only appends rewritten values to the client's query (url.Values.Add), never overwrites or replaces entries. Added during the build: (5) every ResponseWriter wrapper of the module relays WriteHeader/Write to the wrapped writer exactly once with the caller's argument on every path; (6) the upstream-host director is installed only for an explicit pass-host-header=false and is the only writer of Request.Host in pkg/upstream (one reviewed exception: the unix round tripper fills an empty Host); (7) the director calls the original director and then sets URL.Opaque to the same request's RequestURI and clears RawQuery, every reverse proxy returned has that director installed, the proxy's own router is NewRouter().UseEncodedPath() and the upstream router uses encoded-path matching exactly when proxyRawPath is set. Round 3: flattenHeaders writes back the join of exactly the values it ranged over (8). Round 4: the structured configuration's upstreamConfig reaches Options.UpstreamServers as one value (proxyRawPath included) and a legacy --upstream is routed under the decoded path (or fragment) of its URL (R9). Round 5: the per-upstream handler objects hand every request to the handler they wrap with the caller's writer and request, and never answer themselves (R10). Round 6: the ping/ready middleware recognises its endpoints by the request path as sent, EscapedPath() (R11). Round 7: the structured configuration is environment-substituted exactly once (R12, shared with C07.R11). Round 8: the ping middleware claims a request only on a set hit of its own escaped path or User-Agent (R12, shared with C13.R12).",
+		Explanation: "PARTIAL claim — decides four structural conditions of faithful proxying, not routing or byte fidelity as behaviour: (1) stores into the request line, host and body of an *http.Request (Method, URL, RequestURI, Host, Body, and fields of the URL reached from a request) occur, in production code, only in pkg/upstream (rewrite, director, unix round-tripper) or on values that are clones/new requests; (2) between the outer handler and the upstream no production code reachable from the pass path parses or consumes the body (ParseForm/FormValue/PostFormValue/ParseMultipartForm/MultipartReader/Body reads) outside the reviewed login endpoints; (3) the registration-order comparator puts a rewrite rule before a plain one only when the other has no rewrite target and otherwise orders by longer path, on every true-returning path; (4) the rewrite query merge only appends rewritten values to the client's query (url.Values.Add), never overwrites or replaces entries. Added during the build: (5) every ResponseWriter wrapper of the module relays WriteHeader/Write to the wrapped writer exactly once with the caller's argument on every path; (6) the upstream-host director is installed only for an explicit pass-host-header=false and is the only writer of Request.Host in pkg/upstream (one reviewed exception: the unix round tripper fills an empty Host); (7) the director calls the original director and then sets URL.Opaque to the same request's RequestURI and clears RawQuery, every reverse proxy returned has that director installed, the proxy's own router is NewRouter().UseEncodedPath() and the upstream router uses encoded-path matching exactly when proxyRawPath is set. Round 3: flattenHeaders writes back the join of exactly the values it ranged over (8). Round 4: the structured configuration's upstreamConfig reaches Options.UpstreamServers as one value (proxyRawPath included) and a legacy --upstream is routed under the decoded path (or fragment) of its URL (R9). Round 5: the per-upstream handler objects hand every request to the handler they wrap with the caller's writer and request, and never answer themselves (R10). Round 6: the ping/ready middleware recognises its endpoints by the request path as sent, EscapedPath() (R11). Round 7: the structured configuration is environment-substituted exactly once (R12, shared with C07.R11). Round 8: the ping middleware claims a request only on a set hit of its own escaped path or User-Agent (R12, shared with C13.R12). Round 8 (class-wide, P12): in the packages implementing this property every named error result that is used at all is examined — compared with nil, returned, stored or handed to a non-formatting function — unless the code validates the value result instead (RE; zero instances today).",
 		NotDecided:  "longest-prefix routing of gorilla/mux over all paths, percent-encoding fidelity through RequestURI/URL.Path/RawPath, response relay by httputil.ReverseProxy, header pass-through: behaviour of third-party routers over all inputs.",
 		Run:         runC17,
 	})
 }
 
 func runC17(c *Ctx) {
+	c.R.Rule("RE-errors-examined", "in the packages implementing this property every named error result that is used at all is examined, or the value is validated instead (P12, class-wide, round 8)", 1)
+	runErrorsExamined(c, "RE-errors-examined", "pkg/upstream")
 	c.R.Rule("RS-no-request-time-state", "request handling writes no state that outlives the request (package-level variables, objects built at start-up, constructor variables captured by handlers) declared in the packages implementing this property", 1)
 	runStateless(c, "RS-no-request-time-state", "pkg/upstream")
 	r := c.R
@@ -177,18 +179,41 @@ func runC17(c *Ctx) {
 	if proxy != nil && gas != nil {
 		reach := c.staticReach(gas, 6)
 		var middle []*ssa.Function
-		for _, nme := range []string{"(*pkg/middleware.storedSessionLoader).loadSession$1", "(*pkg/middleware.jwtSessionLoader).loadSession$1", "pkg/middleware.loadBasicAuthSession$2", "pkg/middleware.injectRequestHeaders$1", "pkg/middleware.injectResponseHeaders$1", "<strip-handler>"} {
-			var f *ssa.Function
-			if nme == "<strip-handler>" {
-				f = c.stripHandlerFn(rule)
-			} else {
-				f = c.Fn(rule, nme)
+		// the handler closures of the session and header middlewares: every closure of the constructor that has the
+		// handler signature (rw, req) — found by shape, not by its $N name, which shifts when a sibling closure becomes a
+		// named function (neutral batch 8)
+		isHandler := func(f *ssa.Function) bool {
+			ps := f.Signature.Params()
+			return ps.Len() == 2 && strings.HasSuffix(ps.At(0).Type().String(), "net/http.ResponseWriter") && strings.HasSuffix(ps.At(1).Type().String(), "net/http.Request")
+		}
+		for _, nme := range []string{"(*pkg/middleware.storedSessionLoader).loadSession", "(*pkg/middleware.jwtSessionLoader).loadSession", "pkg/middleware.loadBasicAuthSession", "pkg/middleware.injectRequestHeaders", "pkg/middleware.injectResponseHeaders"} {
+			ctor := c.Fn(rule, nme)
+			if ctor == nil {
+				continue
 			}
-			if f != nil {
-				middle = append(middle, f)
-				for g := range c.staticReach(f, 6) {
-					reach[g] = true
+			found := false
+			var visit func(f *ssa.Function)
+			visit = func(f *ssa.Function) {
+				for _, an := range f.AnonFuncs {
+					if isHandler(an) {
+						found = true
+						middle = append(middle, an)
+						for g := range c.staticReach(an, 6) {
+							reach[g] = true
+						}
+					}
+					visit(an)
 				}
+			}
+			visit(ctor)
+			if !found {
+				c.R.Unknown(rule, "anchor:handler-of:"+nme, "-", "no handler closure found in "+nme)
+			}
+		}
+		if f := c.stripHandlerFn(rule); f != nil {
+			middle = append(middle, f)
+			for g := range c.staticReach(f, 6) {
+				reach[g] = true
 			}
 		}
 		bad := ""
